@@ -112,6 +112,43 @@ func runC19(o *out, thorough bool, r *rng, _ []string) map[string]interface{} {
 		}
 	}
 	o.countN("reordered_value_calls", 90000)
+	// a receiver that is reused (as Decode does with m.Type): ReadValue overwrites it completely
+	var reused stun.MessageType
+	m := new(stun.Message)
+	for i := 0; i < 200000; i++ {
+		v := r.intn(65536)
+		if i%3 == 0 {
+			v &= 0x3f7f // stays in the low method bits after a value with high ones
+		}
+		var fresh stun.MessageType
+		fresh.ReadValue(uint16(v))
+		reused.ReadValue(uint16(v))
+		if reused != fresh {
+			o.fail("readvalue-keeps-bits-of-the-receiver", fmt.Sprintf("1902 %d (receiver held the result of an earlier call: got method %d class %d, fresh receiver method %d class %d)", v, reused.Method, reused.Class, fresh.Method, fresh.Class))
+			break
+		}
+		if i%50 == 0 {
+			hd := header(v&0x3fff, 0, tid0)
+			if err := stun.Decode(hd, m); err != nil || m.Type != fresh {
+				o.fail("decode-keeps-bits-of-the-previous-type", fmt.Sprintf("1902 %d (reused Message: %v, %v)", v&0x3fff, m.Type, err))
+				break
+			}
+		}
+	}
+	o.countN("reused_receiver_calls", 200000)
+	// the exported convenience values are plain variables: whatever an application assigns to them, Value is a
+	// function of the receiver's method and class alone
+	saved := [4]stun.MessageType{stun.BindingRequest, stun.BindingSuccess, stun.BindingError, stun.MessageType{}}
+	stun.BindingRequest = stun.NewType(stun.MethodAllocate, stun.ClassRequest)
+	stun.BindingSuccess = stun.NewType(stun.MethodRefresh, stun.ClassIndication)
+	stun.BindingError = stun.NewType(0xfff, stun.ClassSuccessResponse)
+	for k := 0; k < 16384; k++ {
+		if v := (stun.MessageType{Method: stun.Method(k / 4), Class: stun.MessageClass(k % 4)}).Value(); v != table[k] {
+			o.fail("value-depends-on-package-variables", "1901 "+fNums(k/4, k%4)+fmt.Sprintf(" (after BindingRequest/BindingSuccess/BindingError were assigned other types: got %#x, before %#x)", v, table[k]))
+			break
+		}
+	}
+	stun.BindingRequest, stun.BindingSuccess, stun.BindingError = saved[0], saved[1], saved[2]
 	// and from several goroutines at once, each on values of its own: every answer is the table's
 	var rtable [65536]stun.MessageType
 	for v := 0; v < 65536; v++ {
